@@ -625,24 +625,42 @@ fn g_store<M: Machine, S: Copy, V: Copy + Store<S> + Into<S>>(
     }
 }
 
+/// n bytes (rounded up) starting at an 8-byte boundary, filled with 0xee
+struct AlignedBuf(Vec<u64>, usize);
+impl AlignedBuf {
+    fn new(n: usize) -> Self {
+        AlignedBuf(vec![0xeeee_eeee_eeee_eeeeu64; (n + 7) / 8], n)
+    }
+    fn bytes(&mut self) -> &mut [u8] {
+        unsafe { core::slice::from_raw_parts_mut(self.0.as_mut_ptr() as *mut u8, self.1) }
+    }
+}
+
 fn g_storebytes<M: Machine, V: Copy + StoreBytes>(
     cx: &mut Cx, g: &mut Gen, m: M, ty: u32, n: usize, mk: &dyn Fn(&[u8]) -> V, rd: &dyn Fn(V) -> Vec<u8>,
 ) {
-    for a in g.unary(n) {
-        let r = guard(|| rd(m.read_le::<V>(&a)));
+    // The byte slices are placed at every offset 0..7 from an 8-byte boundary in turn (a memory operation is a function of
+    // the BYTES, not of their address: seed C03-7 made the portable read_le panic on a slice that is not 4-byte aligned).
+    // The case itself (operand bytes, result bytes) is the same whatever the offset.
+    for (i, a) in g.unary(n).into_iter().enumerate() {
+        let off = i % 8;
+        let mut src = AlignedBuf::new(n + 8);
+        src.bytes()[off..off + n].copy_from_slice(&a);
+        let sb: &[u8] = src.bytes();
+        let r = guard(|| rd(m.read_le::<V>(&sb[off..off + n])));
         cx.push(ty, 40, 0, &a, &[], &[], r);
-        let r = guard(|| rd(m.read_be::<V>(&a)));
+        let r = guard(|| rd(m.read_be::<V>(&sb[off..off + n])));
         cx.push(ty, 41, 0, &a, &[], &[], r);
         let r = guard(|| {
-            let mut out = vec![0xeeu8; n];
-            mk(&a).write_le(&mut out);
-            out
+            let mut out = AlignedBuf::new(n + 8);
+            mk(&a).write_le(&mut out.bytes()[off..off + n]);
+            out.bytes()[off..off + n].to_vec()
         });
         cx.push(ty, 42, n as u32, &a, &[], &[], r);
         let r = guard(|| {
-            let mut out = vec![0xeeu8; n];
-            mk(&a).write_be(&mut out);
-            out
+            let mut out = AlignedBuf::new(n + 8);
+            mk(&a).write_be(&mut out.bytes()[off..off + n]);
+            out.bytes()[off..off + n].to_vec()
         });
         cx.push(ty, 43, n as u32, &a, &[], &[], r);
     }
